@@ -118,6 +118,18 @@ type client struct {
 	name   string
 	// messages the common library's receive function refused for want of a timestamp
 	unreadable int32
+	// why the read loop ended (the connection was closed, a frame could not be read, ...)
+	readErr atomic.Value
+}
+
+// fate says what became of the client's connection, for a verdict: still open, or how its read loop ended
+func (c *client) fate() string {
+	select {
+	case <-c.closed:
+		return fmt.Sprintf("the client's read loop has ended: %v; it had received %d messages", c.readErr.Load(), func() int { c.mu.Lock(); defer c.mu.Unlock(); return len(c.got) }())
+	default:
+		return fmt.Sprintf("the client's connection is open; it has received %d messages", func() int { c.mu.Lock(); defer c.mu.Unlock(); return len(c.got) }())
+	}
 }
 
 func (s *server) dial(name string, read bool) *client {
@@ -162,6 +174,7 @@ func (c *client) readLoop() {
 				atomic.AddInt32(&c.unreadable, 1)
 				continue
 			}
+			c.readErr.Store(err.Error())
 			return
 		}
 		c.mu.Lock()
@@ -252,21 +265,33 @@ func (c *client) ping(d time.Duration) bool {
 // the server may take a while to work off (race detector, loaded machine).  The client is unserved only when the answer
 // is not there and nothing at all has reached it for the length of patience - or after two minutes.
 func (c *client) pingAfterLoad() bool {
+	c.mu.Lock()
+	from := len(c.got)
+	c.mu.Unlock()
 	r := rid()
 	if err := c.send(&hagallpb.Request{Type: hagallpb.MsgType_MSG_TYPE_PING_REQUEST, Timestamp: now(), RequestId: r}); err != nil {
 		return false
 	}
-	seen := func() int { c.mu.Lock(); defer c.mu.Unlock(); return len(c.got) }
-	last, lastAt, start := seen(), time.Now(), time.Now()
+	// only what has arrived since the last look is examined, and the lock is held for that long only: a client that
+	// scans everything it ever received every few milliseconds reads slowly, and a slow reader is ended by the server
+	match := answers(r)
+	lastAt, start := time.Now(), time.Now()
 	for time.Since(start) < 2*time.Minute {
-		if _, ok := c.waitFor(hagallpb.MsgType_MSG_TYPE_PING_RESPONSE, 200*time.Millisecond, answers(r)); ok {
-			return true
+		c.mu.Lock()
+		fresh := c.got[from:]
+		from = len(c.got)
+		c.mu.Unlock()
+		for _, m := range fresh {
+			if m.Type != nil && int32(m.Type.Number()) == int32(hagallpb.MsgType_MSG_TYPE_PING_RESPONSE) && match(m) {
+				return true
+			}
 		}
-		if n := seen(); n != last {
-			last, lastAt = n, time.Now()
+		if len(fresh) > 0 {
+			lastAt = time.Now()
 		} else if time.Since(lastAt) > patience {
 			return false
 		}
+		time.Sleep(20 * time.Millisecond)
 	}
 	return false
 }
@@ -1012,7 +1037,9 @@ func scenarioStallSwitch(seed int64, idle, frame time.Duration) *verdict {
 // every module loaded and the production decorators: every request must complete, and (built with -race) no access
 // to shared state may be unsynchronised (C09)
 func scenarioConcurrent(seed int64, idle, frame time.Duration) *verdict {
-	w := newWorld(seed, 5*time.Second, frame)
+	// the idle timeout is long: a client that is done waits, silent, for the slowest of the others before it is pinged,
+	// and on a loaded machine that has taken longer than the five seconds this scenario used to grant
+	w := newWorld(seed, time.Minute, frame)
 	k := 4 + w.r.Intn(13)
 	var wg sync.WaitGroup
 	var clients []*client
@@ -1136,7 +1163,7 @@ func scenarioConcurrent(seed int64, idle, frame time.Duration) *verdict {
 	var v *verdict
 	for i, c := range clients {
 		if !c.pingAfterLoad() {
-			v = &verdict{"request-never-completes", fmt.Sprintf("client %d of %d got no ping response after the concurrent phase although nothing had reached it for 10 s; server goroutines: %s", i, k, leftoverStacks())}
+			v = &verdict{"request-never-completes", fmt.Sprintf("client %d of %d got no ping response after the concurrent phase although nothing had reached it for 10 s (%s); server goroutines: %s", i, k, c.fate(), leftoverStacks())}
 			break
 		}
 	}
@@ -1156,7 +1183,7 @@ func answers(id uint32) func(hwebsocket.Msg) bool {
 // a member who joins again and again.  What the stores publish is read by other goroutines: it may be replaced, never
 // rewritten in place (C09; under the race detector an in-place write shows as a race with the encoder).
 func scenarioShared(seed int64, idle, frame time.Duration) *verdict {
-	w := newWorld(seed, 5*time.Second, frame)
+	w := newWorld(seed, time.Minute, frame)
 	writer := w.w1
 	eid := w.entityW1
 	var tid uint32
@@ -1235,7 +1262,7 @@ func scenarioShared(seed int64, idle, frame time.Duration) *verdict {
 	var v *verdict
 	for i, c := range append(readers, writer, comer) {
 		if !c.pingAfterLoad() {
-			v = &verdict{"request-never-completes", fmt.Sprintf("client %d got no ping response after the shared phase although nothing had reached it for 10 s; server goroutines: %s", i, leftoverStacks())}
+			v = &verdict{"request-never-completes", fmt.Sprintf("client %d got no ping response after the shared phase although nothing had reached it for 10 s (%s); server goroutines: %s", i, c.fate(), leftoverStacks())}
 			break
 		}
 	}
